@@ -23,7 +23,7 @@ _SEQ = ("seeded random registration sequences built through the public Dispatche
         "ordering/overlap findings are confirmed by a real dispatch_par in which the two systems wait for each other")
 _WORLD = ("seeded random histories on a real World: <= 12 operations (insert / remove / entry / get_mut / has_value, typed and by id, with mismatching "
           "type arguments) over 3 resource types x dynamic ids {0,1,7} with drop counters; borrow phases of <= 7 steps with live guards, clones, writes "
-          "through exclusive guards, Option system data")
+          "through exclusive guards, Option system data, presence queries under live guards")
 _META = ("seeded random histories on a real MetaTable<dyn Probe>: <= 15 operations (register with repeats / insert / remove) over 6 types of different size, "
          "get / get_mut / iter / iter_mut checked after every step, also under live shared / exclusive guards and held items, address-changing CastFrom impls")
 BOUNDS = {
@@ -36,6 +36,11 @@ BOUNDS = {
     "C16": "seeded random Par/Seq trees (depth <= 5, fan-out <= 4, 6 resource ids, zero-sized leaves) built through the real Par::new/with and Seq::new/with, "
            "dispatched three times by a real ParSeq (once from inside the pool)",
     "C17": _META,
+    "C01": _SEQ + "; in a share of the cases ordinary systems take their data from shred's own SystemData types over static resources (Option / Expect forms, "
+           "tuples, a derived and a derived generic bundle), so what the scheduler is told is shred's own reads() / writes()",
+    "C04": _SEQ + "; every 8th case: a call sequence (<= 8 calls) on a real AsyncDispatcher, run counts only (k dispatches -> k runs, one thread-local run per wait)",
+    "C19": _SEQ + "; each case is rebuilt after renaming, naming / un-naming, injective resource relabelling, permuting declared lists, and on workers of "
+           "1- and 3-thread rayon pools; plans compared",
 }
 BOUND_TEXT = _SEQ
 
